@@ -195,7 +195,10 @@ def gen_layout(rng):
     d2 = gen_name(rng, "")
     while d2 == d1:
         d2 = gen_name(rng, "")
-    dirs = {"top": d1, "child": d1 + "/" + d2, "root": "", "sibling": gen_name(rng, "") + "x"}
+    sib = gen_name(rng, "") + "x"
+    while sib.lower() == d1.lower():
+        sib = gen_name(rng, "") + "x"
+    dirs = {"top": d1, "child": d1 + "/" + d2, "root": "", "sibling": sib}
     place = lambda: rng.choice(["top", "child", "root", "sibling"])  # noqa
     L = {"dirs": dirs}
     # schema: top.xml (in 'top') extends base1 (somewhere) which extends base2 (somewhere else);
@@ -204,6 +207,7 @@ def gen_layout(rng):
     L["base1"] = {"dir": place(), "name": gen_name(rng, ".xml", blanks=False)}
     L["base2"] = {"dir": place(), "name": gen_name(rng, ".xml", blanks=False)}
     L["types"] = {"dir": place(), "name": gen_name(rng, ".xml")}
+    L["base3"] = {"dir": "top", "name": gen_name(rng, ".xml", blanks=False)}
     L["conf"] = {"dir": "top", "name": gen_name(rng, ".conf")}
     L["inc1"] = {"dir": place(), "name": gen_name(rng, ".conf")}
     L["inc2"] = {"dir": place(), "name": gen_name(rng, ".conf")}
@@ -212,7 +216,7 @@ def gen_layout(rng):
         L["base1"]["dir"] = "top"
         L["base2"]["dir"] = "top"
     seen = set()
-    for k in ("schema", "base1", "base2", "types", "conf", "inc1", "inc2"):
+    for k in ("schema", "base1", "base2", "base3", "types", "conf", "inc1", "inc2"):
         key = (L[k]["dir"], L[k]["name"].lower())
         while key in seen:
             L[k]["name"] = "z" + L[k]["name"]
@@ -251,9 +255,11 @@ def write_layout(root, L, frag=None):
         "base1": '<schema extends=%s>\n  <key name="b1" default="one"/>\n</schema>\n'
                  % xml_attr(rel(L, "base1", "base2") + f("extends2")),
         "types": '<schema>\n  <sectiontype name="ts"><key name="k" datatype="integer"/></sectiontype>\n</schema>\n',
+        "base3": '<schema>\n  <key name="b3" default="three"/>\n</schema>\n',
         "schema": '<schema extends=%s>\n  <import src=%s/>\n  <multisection type="ts" name="*" attribute="secs"/>\n'
                   '  <multikey name="m" attribute="m"/>\n</schema>\n'
-                  % (xml_attr(rel(L, "schema", "base1") + f("extends")), xml_attr(rel(L, "schema", "types") + f("src"))),
+                  % (xml_attr(rel(L, "schema", "base1") + f("extends") + " " + rel(L, "schema", "base3") + f("extends-last")),
+                     xml_attr(rel(L, "schema", "types") + f("src"))),
         "inc2": "m from-inc2\n<ts deep>\n k 3\n</ts>\n",
         "inc1": "m from-inc1\n%%include %s%s\nb1 changed\n" % (rel(L, "inc1", "inc2"), f("include2")),
         "conf": "m first\n<ts a>\n  k 1\n</ts>\n%%include %s%s\nm last\n" % (rel(L, "conf", "inc1"), f("include")),
@@ -337,7 +343,9 @@ def check_layout(L, frag=None):
                     out.append(("schema:url-not-file-triple-slash:%s" % label, repr(r[2])))
             elif r[0] == "reject" and r[2] and str(r[2]).lower().startswith("file:") and not str(r[2]).startswith("file:///"):
                 out.append(("schema:error-url-not-normalised:%s" % label, repr(r[2])))
-        if frag in ("extends", "extends2", "src"):
+        if frag is None and first[0] == "ok":
+            out.extend(same_relative_name_probe(root, L, spath))
+        if frag in ("extends", "extends2", "extends-last", "src"):
             if first[0] == "ok":
                 out.append(("fragment-accepted:%s" % frag, "schema loaded although the %s reference carries '#frag'" % frag))
             return out
@@ -380,11 +388,45 @@ def check_layout(L, frag=None):
         else:
             want_m = ["first", "from-inc1", "from-inc2", "last"]
             got = cfirst[1]["attrs"].get("m")
-            if got != want_m or cfirst[1]["attrs"].get("b1") != "changed" or cfirst[1]["attrs"].get("b2") != "two":
+            if got != want_m or cfirst[1]["attrs"].get("b1") != "changed" or cfirst[1]["attrs"].get("b2") != "two" \
+                    or cfirst[1]["attrs"].get("b3") != "three":
                 out.append(("layout-config-wrong-content", repr(cfirst[1]["attrs"])[:300]))
     finally:
         shutil.rmtree(root, ignore_errors=True)
         shutil.rmtree(outside, ignore_errors=True)
+    return out
+
+
+def same_relative_name_probe(root, L, spath):
+    """A long-lived SchemaLoader is asked for the same relative name from two directories that
+    hold different schemas; each answer must be the schema of the file that name denotes there."""
+    import ZConfig
+    import ZConfig.loader
+    out = []
+    name = os.path.basename(spath)
+    other_dir = os.path.join(root, "zcv-decoy-dir")
+    os.makedirs(other_dir, exist_ok=True)
+    decoy = os.path.join(other_dir, name)
+    with open(decoy, "w", encoding="utf-8") as fh:
+        fh.write('<schema>\n  <key name="decoy" default="yes"/>\n</schema>\n')
+    loader = ZConfig.loader.SchemaLoader()
+    old = os.getcwd()
+    try:
+        seen = []
+        for d, want_decoy in ((os.path.dirname(spath), False), (other_dir, True), (os.path.dirname(spath), False)):
+            os.chdir(d)
+            try:
+                sch = loader.loadURL(name)
+            except Exception as e:  # noqa
+                out.append(("shared-loader:relative-name-fails", "%s in %s: %r" % (name, _rel(d, root), e)))
+                continue
+            has_decoy = any(k == "decoy" for k, _ci in sch)
+            if has_decoy != want_decoy:
+                out.append(("shared-loader:relative-name-resolved-in-wrong-directory",
+                            "loadURL(%r) from %s returned the schema of another directory" % (name, _rel(d, root))))
+    finally:
+        os.chdir(old)
+        os.remove(decoy)
     return out
 
 
@@ -400,7 +442,9 @@ def _rel(cwd, root):
 def evaluate(case):
     if case.get("kind") == "layout":
         L = case["layout"]
-        for k in ("schema", "base1", "base2", "types", "conf", "inc1", "inc2"):
+        if "base3" not in L:
+            return []
+        for k in ("schema", "base1", "base2", "base3", "types", "conf", "inc1", "inc2"):
             n = L[k]["name"]
             if not n or "/" in n or n in (".", "..") or any(c in n for c in "#?%\x00\n\r\\") or n != n.strip():
                 return []
@@ -412,8 +456,8 @@ def evaluate(case):
             return []
         if any(c.isspace() for c in rel(L, "schema", "base1") + rel(L, "base1", "base2")):
             return []
-        keys = [(L[k]["dir"], L[k]["name"].lower()) for k in ("schema", "base1", "base2", "types", "conf", "inc1", "inc2")]
-        if len(set(keys)) < 7:
+        keys = [(L[k]["dir"], L[k]["name"].lower()) for k in ("schema", "base1", "base2", "base3", "types", "conf", "inc1", "inc2")]
+        if len(set(keys)) < 8 or any(c.isspace() for c in L["base3"]["name"]):
             return []
         try:
             fl = check_layout(L, case.get("frag"))
@@ -468,7 +512,7 @@ def run_shard(spec):
     for i in range(spec["lo"], spec["hi"]):
         rng = loadcheck.case_rng(spec["seed"] + 1818, i)
         L = gen_layout(rng)
-        frag = rng.choice([None, None, None, "include", "include2", "extends", "extends2", "src", "top"])
+        frag = rng.choice([None, None, None, None, "include", "include2", "extends", "extends2", "extends-last", "src", "top"])
         res.evaluations += 1
         try:
             fl = check_layout(L, frag)
